@@ -4,8 +4,17 @@ props/c19.py (kept separate so that pool workers import only this module).
 
 op line (one command line of the real tool):
     cli <dataset> <name> <axis|-> <type> <bintype|-> <r|-> <q|-> <agg|->
-  dataset = <kind><nfiles><shape>[/c<kind>]     kind det|prob|ens|probnoq, nfiles 1..3,
-            shape reg|onetime|oneloc|miss, optional climatology file (-c) of the given kind
+  dataset = <kind><nfiles><shape>[/c<kind>]     kind det|prob|ens|probnoq|mixdp|mixens|mixpq, nfiles 1..3,
+            shape reg|onetime|oneloc|miss|onelead|allmiss|fcmiss|disjoint|nooverlap|x0|nc, optional
+            climatology file (-c) of the given kind
+            mixdp  = deterministic and probabilistic files together (file k: det, prob, det)
+            mixens = ensembles of 5, 3 and 4 members together
+            mixpq  = probabilistic files that store different thresholds / quantile levels
+            onelead = one lead time; allmiss = every observation missing; fcmiss = every forecast (and derived
+            column) of the FIRST file missing; disjoint = times / lead times / locations overlap only partly;
+            nooverlap = no common time at all (must end in an error message); x0 = `# x0: 0` / `# x1: 8` headers
+            (discrete mass at both ends); nc = the regular dataset as NetCDF files (verif.input.Netcdf)
+  optional trailing tokens (cross product with -c / -T):  c=<kind>   T=<hours>:<aggregator>:<axis>
   r, q    = the literal value of -r / -q (comma lists), '-' = option absent
 
 reply (one line):
@@ -14,6 +23,7 @@ reply (one line):
            (file/function/line: innermost frame inside the verif package = the crash site)
   where  = stub:<method>   verif.util.error called from a base-class stub of verif.output.Output
            driver          verif.util.error called from verif.driver.run itself
+           data            verif.util.error called from Data.__init__ (the files have nothing in common, …)
            run             verif.util.error (or sys.exit) called from anywhere deeper
   the bracketed part is present when the driver reached an output entry point
   (text/csv/map/plot/plot_rank/plot_impact/plot_mapimpact); thr = none|given|detdefault|data|qgiven|qdata
@@ -35,8 +45,10 @@ if REPO not in sys.path:
     sys.path.insert(0, REPO)
 os.environ.setdefault("MPLBACKEND", "Agg")
 
-KINDS = ["det", "prob", "ens", "probnoq"]
-SHAPES = ["reg", "onetime", "oneloc", "miss"]
+KINDS = ["det", "prob", "ens", "probnoq", "mixdp", "mixens", "mixpq"]
+SHAPES = ["reg", "onetime", "oneloc", "miss", "onelead", "allmiss", "fcmiss", "disjoint", "nooverlap", "x0", "nc"]
+BASE_KINDS = ["det", "prob", "ens", "probnoq"]
+OLD_SHAPES = ["reg", "onetime", "oneloc", "miss"]
 TYPES = ["plot", "text", "csv", "map", "rank", "maprank", "impact", "mapimpact"]
 PLOT_TYPES = ["plot", "map", "rank", "maprank", "impact", "mapimpact"]
 ENTRY_OF_TYPE = {"plot": "plot", "text": "text", "csv": "csv", "map": "map", "maprank": "map",
@@ -88,63 +100,178 @@ def _fmt(v):
     return repr(float(v))
 
 
-def _write_one(path, kind, shape, k):
-    rng = random.Random("%d/%s/%s/%d" % (DATA_SEED, kind, shape, k))
-    base = random.Random("%d/%s/obs" % (DATA_SEED, shape))     # the same observations in every input
+# what file k of a mixed dataset is: (base kind, members, thresholds, quantiles)
+MIX_PQ = [(THRESHOLDS, QUANTILES), ([1, 5], [0.25, 0.75]), ([0.5, 5, 10], [0.5])]
+MIX_ENS = [5, 3, 4]
+TIMES5 = TIMES + [(20120211, 0)]
+LEADS5 = LEADS + [48, 60]
+LOCS5 = LOCS + [(4, 62.0, 9.0, 700.0), (100000, 58.5, 7.5, 20.0)]
+
+
+def file_spec(kind, k):
+    if kind == "mixdp":
+        return ("det", "prob", "det")[k], MEMBERS, THRESHOLDS, QUANTILES
+    if kind == "mixens":
+        return "ens", MIX_ENS[k], THRESHOLDS, QUANTILES
+    if kind == "mixpq":
+        return "prob", MEMBERS, MIX_PQ[k][0], MIX_PQ[k][1]
+    return kind, MEMBERS, THRESHOLDS, QUANTILES
+
+
+def _coords(shape, k):
     times = TIMES[:1] if shape == "onetime" else TIMES
+    leads = LEADS[:1] if shape == "onelead" else LEADS
     locs = LOCS[:1] if shape == "oneloc" else LOCS
+    if shape == "disjoint":
+        # file k holds a window of each dimension: consecutive files share 2 of 3-4 values, file 0 and 2 fewer
+        times, leads, locs = TIMES5[k:k + 3], LEADS5[k:k + 3], LOCS5[k:k + 4]
+    if shape == "nooverlap":
+        times = [TIMES5[k]] if k < 2 else TIMES5[2:4]
+    return times, leads, locs
+
+
+def _table(kind, shape, k):
+    """-> (cols, rows as dicts, base kind, members, thresholds, quantiles)"""
+    bkind, members, thresholds, quantiles = file_spec(kind, k)
+    rng = random.Random("%d/%s/%s/%d" % (DATA_SEED, kind if kind in BASE_KINDS else bkind + kind, shape, k))
+    old = shape in OLD_SHAPES and kind in BASE_KINDS
+    times, leads, locs = _coords(shape, k)
     cols = ["date", "hour", "leadtime", "location", "lat", "lon", "altitude", "obs", "fcst"]
-    if kind in ("prob", "probnoq"):
-        cols += ["p%g" % t for t in THRESHOLDS]
-        if kind == "prob":
-            cols += ["q%g" % q for q in QUANTILES]
+    if bkind in ("prob", "probnoq"):
+        cols += ["p%g" % t for t in thresholds]
+        if bkind == "prob":
+            cols += ["q%g" % q for q in quantiles]
         cols += ["pit"]
-    if kind == "ens":
-        cols += ["e%d" % i for i in range(MEMBERS)]
+    if bkind == "ens":
+        cols += ["e%d" % i for i in range(members)]
     rows = []
+    # the same observations in every input: a function of the coordinates for the new shapes (files need not hold
+    # the same cases), the historical stream for the old ones (corpus lines and replays must reproduce)
+    base = random.Random("%d/%s/obs" % (DATA_SEED, shape))
     for (d, h) in times:
-        for l in LEADS:
+        for l in leads:
             for (i, lat, lon, elev) in locs:
+                if not old:
+                    base = random.Random("%d/obs/%d/%d/%d" % (DATA_SEED, d, l, i))
                 obs = round(base.uniform(0, 8), 1)
                 if base.random() < 0.25:
                     obs = 0.0                          # ties with the lowest threshold, like precipitation
                 fc = round(max(0.0, obs + rng.gauss(0.3 * (k + 1), 1.5)), 1)
+                if shape == "x0":
+                    fc = min(fc, 8.0)                  # x1 = 8: nothing above the upper discrete mass
+                    if rng.random() < 0.2:
+                        obs = 8.0
                 v = {"date": d, "hour": h, "leadtime": l, "location": i, "lat": lat, "lon": lon,
                      "altitude": elev, "obs": obs, "fcst": fc}
                 if rng.random() < 0.06:
                     v["fcst"] = float("nan")
-                if shape == "miss" and l == LEADS[1]:   # one lead time with nothing but missing values
+                allnan = shape == "miss" and l == LEADS[1]    # one lead time with nothing but missing values
+                if allnan or shape == "allmiss":
                     v["obs"] = float("nan")
+                if allnan or (shape == "fcmiss" and k == 0):
                     v["fcst"] = float("nan")
                 sd = 1.0 + 0.5 * k
-                if kind in ("prob", "probnoq"):
-                    for t in THRESHOLDS:
+                if bkind in ("prob", "probnoq"):
+                    for t in thresholds:
                         z = (t - fc) / sd
                         v["p%g" % t] = round(0.5 * (1 + math.erf(z / math.sqrt(2))), 3)
-                    for q, zq in zip(QUANTILES, (-1.2816, 0.0, 1.2816)):
+                    for q in quantiles:
+                        zq = {0.1: -1.2816, 0.25: -0.6745, 0.5: 0.0, 0.75: 0.6745, 0.9: 1.2816}[q]
                         v["q%g" % q] = round(fc + zq * sd, 2)
                     z = (obs - fc) / sd
                     v["pit"] = round(0.5 * (1 + math.erf(z / math.sqrt(2))), 3)
-                    if shape == "miss" and l == LEADS[1]:
+                    if shape == "x0":
+                        if obs == 0.0:
+                            v["pit"] = v["p%g" % thresholds[0]] if thresholds[0] == 0 else round(0.5 * (1 + math.erf((0 - fc) / sd / math.sqrt(2))), 3)
+                        if obs == 8.0:
+                            v["pit"] = 1.0
+                    if allnan or (shape == "fcmiss" and k == 0):
                         for c in cols[9:]:
                             v[c] = float("nan")
-                if kind == "ens":
-                    for m in range(MEMBERS):
-                        v["e%d" % m] = round(max(0.0, fc + rng.gauss(0, sd)), 1)
-                    if shape == "miss" and l == LEADS[1]:
-                        for m in range(MEMBERS):
+                if bkind == "ens":
+                    for m in range(members):
+                        e = round(max(0.0, fc + rng.gauss(0, sd)), 1)
+                        v["e%d" % m] = min(e, 8.0) if shape == "x0" else e
+                    if allnan or (shape == "fcmiss" and k == 0):
+                        for m in range(members):
                             v["e%d" % m] = float("nan")
-                rows.append(" ".join(_fmt(v[c]) for c in cols))
+                rows.append(v)
+    return cols, rows, bkind, members, thresholds, quantiles
+
+
+def _write_one(path, kind, shape, k):
+    cols, rows, bkind, members, thresholds, quantiles = _table(kind, shape, k)
+    if shape == "nc":
+        return _write_nc(path, cols, rows, bkind, members, thresholds, quantiles)
     with open(path, "w") as f:
         f.write("# variable: Precip\n# units: mm\n")
-        f.write(" ".join(cols) + "\n" + "\n".join(rows) + "\n")
+        if shape == "x0":
+            f.write("# x0: 0\n# x1: 8\n")
+        f.write(" ".join(cols) + "\n" + "\n".join(" ".join(_fmt(v[c]) for c in cols) for v in rows) + "\n")
+
+
+def _write_nc(path, cols, rows, bkind, members, thresholds, quantiles):
+    """the table as a verif NetCDF file (the layout verif.input.Netcdf documents)"""
+    import calendar
+    import netCDF4
+    import numpy as np
+    times = sorted(set((v["date"], v["hour"]) for v in rows))
+    leads = sorted(set(v["leadtime"] for v in rows))
+    locs = sorted(set((v["location"], v["lat"], v["lon"], v["altitude"]) for v in rows))
+    unix = [calendar.timegm((d // 10000, d // 100 % 100, d % 100, h, 0, 0)) for d, h in times]
+    T, L, X = len(times), len(leads), len(locs)
+    idx = {}
+    for v in rows:
+        idx[(times.index((v["date"], v["hour"])), leads.index(v["leadtime"]), [x[0] for x in locs].index(v["location"]))] = v
+    nc = netCDF4.Dataset(path, "w")
+    nc.createDimension("time", None)
+    nc.createDimension("leadtime", L)
+    nc.createDimension("location", X)
+    for nm, dm, val in [("time", ("time",), unix), ("leadtime", ("leadtime",), leads),
+                        ("location", ("location",), [x[0] for x in locs]), ("lat", ("location",), [x[1] for x in locs]),
+                        ("lon", ("location",), [x[2] for x in locs]), ("altitude", ("location",), [x[3] for x in locs])]:
+        var = nc.createVariable(nm, "f8", dm)
+        var[:] = np.array(val, float)
+
+    def arr(col):
+        a = np.full((T, L, X), np.nan)
+        for (t, l, x), v in idx.items():
+            a[t, l, x] = v[col]
+        return a
+    for col in ("obs", "fcst") + (("pit",) if "pit" in cols else ()):
+        var = nc.createVariable(col, "f4", ("time", "leadtime", "location"))
+        var[:] = arr(col)
+    if bkind in ("prob", "probnoq"):
+        nc.createDimension("threshold", len(thresholds))
+        var = nc.createVariable("threshold", "f8", ("threshold",))
+        var[:] = np.array(thresholds, float)
+        var = nc.createVariable("cdf", "f4", ("time", "leadtime", "location", "threshold"))
+        var[:] = np.stack([arr("p%g" % t) for t in thresholds], axis=3)
+    if bkind == "prob":
+        nc.createDimension("quantile", len(quantiles))
+        var = nc.createVariable("quantile", "f8", ("quantile",))
+        var[:] = np.array(quantiles, float)
+        var = nc.createVariable("x", "f4", ("time", "leadtime", "location", "quantile"))
+        var[:] = np.stack([arr("q%g" % q) for q in quantiles], axis=3)
+    if bkind == "ens":
+        nc.createDimension("ensemble_member", members)
+        var = nc.createVariable("ensemble", "f4", ("time", "leadtime", "location", "ensemble_member"))
+        var[:] = np.stack([arr("e%d" % m) for m in range(members)], axis=3)
+    nc.long_name = "Precip"
+    nc.units = "mm"
+    nc.Conventions = "verif_1.0.0"
+    nc.close()
+
+
+def file_name(kind, shape, k):
+    return "%s_%s_%d.%s" % (kind, shape, k, "nc" if shape == "nc" else "txt")
 
 
 def _write_all(d):
     for kind in KINDS:
         for shape in SHAPES:
             for k in range(3):
-                _write_one(os.path.join(d, "%s_%s_%d.txt" % (kind, shape, k)), kind, shape, k)
+                _write_one(os.path.join(d, file_name(kind, shape, k)), kind, shape, k)
 
 
 def parse_ds(ds):
@@ -163,23 +290,35 @@ def parse_ds(ds):
 def files_of(ds):
     kind, n, shape, clim = parse_ds(ds)
     d = workdir()
-    files = [os.path.join(d, "%s_%s_%d.txt" % (kind, shape, k)) for k in range(n)]
-    cfile = os.path.join(d, "%s_%s_%d.txt" % (clim, shape, 2)) if clim else None
+    files = [os.path.join(d, file_name(kind, shape, k)) for k in range(n)]
+    cfile = os.path.join(d, file_name(clim, shape, 2)) if clim else None
     return files, cfile
 
 
 def parse_op(op):
     a = op.split()
-    if len(a) != 9 or a[0] != "cli":
+    if len(a) < 9 or a[0] != "cli":
         raise ValueError("bad op %r" % op)
     keys = ("ds", "name", "axis", "type", "bin", "r", "q", "agg")
-    return dict(zip(keys, a[1:]))
+    c = dict(zip(keys, a[1:9]))
+    c["clim"], c["T"] = "-", "-"
+    for t in a[9:]:
+        if t.startswith("c="):
+            c["clim"] = t[2:]
+        elif t.startswith("T="):
+            c["T"] = t[2:]
+        else:
+            raise ValueError("bad op %r" % op)
+    return c
 
 
 def argv_of(op, outfile=None):
     """the command line of the real tool for an op (file names shortened by `display`)"""
     c = parse_op(op)
     files, cfile = files_of(c["ds"])
+    if c["clim"] != "-":
+        kind, n, shape, _ = parse_ds(c["ds"])
+        cfile = os.path.join(workdir(), file_name(c["clim"], shape, 2))
     argv = ["verif"] + files + ["-m", c["name"]]
     if cfile:
         argv += ["-c", cfile]
@@ -194,6 +333,13 @@ def argv_of(op, outfile=None):
         argv += ["-q", c["q"]]
     if c["agg"] != "-":
         argv += ["-agg", c["agg"]]
+    if c["T"] != "-":
+        h, tagg, tx = c["T"].split(":")
+        argv += ["-T", h]
+        if tagg != "-":
+            argv += ["-Tagg", tagg]
+        if tx != "-":
+            argv += ["-Tx", tx]
     if outfile is not None and c["type"] not in ("text", "csv"):
         argv += ["-f", outfile]
     return argv
@@ -291,6 +437,8 @@ def _where_exit(tb):
     f, qual, line, fr = frames[-1]
     if f == "driver.py" and qual == "run":
         return "driver"
+    if f == "data.py" and qual == "Data.__init__":
+        return "data"          # the dataset could not be built (no common times / lead times / locations, …)
     if f == "output.py":
         base = verif.output.Output
         for name in ("_get_x_y", "_plot_core", "_map_core", "_plot_impact_core", "_plot_mapimpact_core",
